@@ -199,6 +199,30 @@ def run_case(case):
     if not e <= tol:
         return violated(sig, "differs from the explicit DFT definition: rel. error %.3g "
                         "(tol %.1g)" % (e, tol), wit, mech="value", obs=obs)
+    if sum(case["rs"]) % 3 == 0:
+        # history with rejected calls in between (unsupported norm string, out-of-range axis)
+        # on a larger input with the same output shape and element type; then the first call
+        # again: same result
+        big = np.full(tuple(2 * n_ + 1 for n_ in x0.shape), 3 + 4j).astype(x0.dtype)
+        osh_ = list(ref.shape)
+        for bad in (lambda: f(big, axes=axes, center=center, norm="orthonormal", oshape=osh_),
+                    lambda: f(big, axes=[len(shape) + 3], center=center, norm=norm),
+                    lambda: f(big, axes=axes, center=center, norm=norm, oshape=osh_ + [2])):
+            try:
+                bad()
+            except Exception:
+                pass
+        try:
+            y2 = f(x, axes=axes, center=center, norm=norm, **kw)
+        except Exception as e:
+            return violated(sig, "a valid call raised %s after rejected calls" % type(
+                e).__name__, wit, mech="history-after-failure")
+        checks += 1
+        if y2.shape != y.shape or not np.array_equal(y2, y, equal_nan=True):
+            return violated(sig, "the same call gives another result after rejected calls "
+                            "(unsupported norm / axis / oshape on a larger input) in between: "
+                            "max diff %.3g" % float(np.max(np.abs(y2 - y))), wit,
+                            mech="history-after-failure")
     checks += 1
     if dtype.kind == "c" and y.dtype != dtype:
         return violated(sig, "complex input %s came back as %s" % (dtype, y.dtype), wit,
